@@ -180,6 +180,54 @@ DIRECTED = [("planted_a", d_planted), ("planted_b", d_planted), ("planted_c", d_
             ("hostile_a", d_hostile), ("hostile_b", d_hostile), ("hostile_c", d_hostile)]
 
 
+def d_transform_lens(name, seed, base):
+    """a report made with --transform (the size check is off for it): the members of a group have DIFFERENT on-disk lengths
+    (equal after `head -c N`); the bytes the dry run promises to reclaim are the sum over the victims' own lengths"""
+    rng = core.SplitMix64(seed)
+    s = X.Scn(name, seed, base)
+    s.roots = [os.path.join(s.treedir, b"r0")]
+    keep = rng.choice([4, 8, 16])
+    for gi in range(1 + rng.below(3)):
+        head = treegen.content(seed + 31 * gi, keep)
+        for k in range(3 + rng.below(3)):
+            s.mk(b"r0/g%d/f%d" % (gi, k), head + treegen.content(seed + 100 * gi + k, 5 + 13 * k + rng.below(9)))
+    s.stamp_mtimes(rng)
+    s.group_opts = ["--transform", "head -c %d" % keep]
+    s.fmt = rng.choice(["default", "json"])
+    X.pick_opts(s, rng, op=rng.choice(["remove", "link", "softlink", "move"]))
+    s.use_sym, s.hostile = False, False
+    s.notes.append("transform report: members of different lengths")
+    return s
+
+
+def d_longnames(name, seed, base):
+    """victims whose file name is 231..255 bytes long: <name>.<24 random characters> exceeds NAME_MAX, so the replace-by-link
+    commands cannot park the victim under its temporary name (N8).  Whatever happens then, `bash script` and the real run must
+    leave the same tree."""
+    rng = core.SplitMix64(seed)
+    s = X.Scn(name, seed, base)
+    s.roots = [os.path.join(s.treedir, b"r0")]
+    data = treegen.content(seed, 40)
+    s.mk(b"r0/a/keep", data)
+    for k, n in enumerate([231 + rng.below(20), 255, 230][:2 + rng.below(2)]):
+        s.mk(b"r0/b/" + bytes([103 + k]) + bytes(97 + rng.below(26) for _ in range(n - 1)), data)
+    other = treegen.content(seed + 1, 25)
+    s.mk(b"r0/c/x1", other)
+    s.mk(b"r0/c/x2", other)
+    s.stamp_mtimes(rng)
+    s.fmt = rng.choice(["default", "json"])
+    X.pick_opts(s, core.SplitMix64(0), op=rng.choice(["link", "softlink"]))
+    s.op_opts, s.sem = [], {"n": None, "prio": [], "keep_name": [], "keep_path": [], "name": [], "path": [], "iso": [], "mlinks": False}
+    s.no_lock = False
+    s.use_sym, s.hostile = False, False
+    s.notes.append("victims with 231-255 byte names")
+    return s
+
+
+DIRECTED[:0] = [("longnames_a", d_longnames), ("longnames_b", d_longnames), ("longnames_c", d_longnames), ("transform_lens_a", d_transform_lens), ("transform_lens_b", d_transform_lens), ("transform_lens_c", d_transform_lens),
+                ("transform_lens_d", d_transform_lens)]
+
+
 def build(kind, name, seed, base):
     for k, f in DIRECTED:
         if k == kind:
@@ -374,11 +422,18 @@ def run_case(model, scratch, kind, idx, seed):
     # through the link (the lock probe opens it for writing; move-by-copy reads it) after the target is gone
     n6 = False
     if sym_in_report and (b"for write: No such file or directory" in rerr or
+                          b"for write: Too many levels of symbolic links" in rerr or      # the target became a link leading back (K7 territory)
                           (b"Failed to copy file" in rerr and b"No such file or directory" in rerr)):
         n6 = any(inv0.get(p, ("?",))[0] == "l" and X.resolve(inv0, p) not in (None, p) and
                  not X.entry_same(inv0.get(X.resolve(inv0, p)), invB.get(X.resolve(inv0, p)))
                  for g in groups for p in g["files"])
     n6sig = {"kind": "symlink_victim_after_its_target"}
+    # N8: the temporary name <victim>.<24 random characters> of a victim whose own name is longer than 230 bytes exceeds NAME_MAX:
+    # the real run fails for that victim (File name too long) and does not count it, the dry run prints and counts it
+    n8 = s.op in ("link", "softlink", "dedupe") and b"File name too long" in rerr and \
+        any(len(os.path.basename(v)) > 230 for v in script_victims)
+    if n8:
+        n6, n6sig = True, {"kind": "victim_name_too_long_for_the_temp_name"}
     if s.op != "dedupe" and changed_real != script_victims and not (s.op == "link" and set(changed_real) <= set(script_victims)):
         # (`link` of two names of one inode with --match-links changes nothing observable)
         if not n6:
@@ -534,7 +589,8 @@ def run(ctx):
 
 def _guard(model, scratch, c):
     try:
-        return run_case(model, scratch, *c)
+        # (reports of a --transform run switch the size check off: outside the whole-run model, judged by the model-free parts)
+        return run_case(None if c[0].startswith(("transform_lens", "longnames")) else model, scratch, *c)
     except Exception as e:
         import traceback
         return {"viol": [({"kind": "case_crashed"}, "case %r crashed: %r" % (c, e), {"kind": c[0], "index": c[1], "scenario_seed": c[2],
